@@ -18,15 +18,17 @@ import (
 //     (none, every path again; quick tier: a seeded third of the pairs), followed by closing observers: what a fresh client is told, and a second session of
 //     the same MAC (its own accounting session) ended by RELEASE.
 //     The same paths for clients with hardware addresses of 1, 5, 7 and 16 bytes (oddHlen), and REQUESTs with a
-//     termination inside their unlock window (raced).
+//     termination inside their unlock window (raced), and sessions whose QoS / NAT install failed half-way because a
+//     kernel map was full, ended by every path (faulted).
 //  2. Random sequences over 3-4 MACs on the 5 usable addresses (conflicts, exhaustion, reuse of addresses that carry
 //     residue), short leases, every operation kind.
-//  3. Small-scope exhaustive: every sequence of depth 4 over a 19-letter alphabet on two MACs (thorough: all of them,
+//  3. Small-scope exhaustive: every sequence of depth 4 over a 20-letter alphabet on two MACs (thorough: all of them,
 //     quick: a seeded sample).
 func (comp) Gen(r *rand.Rand, tier string, emit func([]string)) {
 	crossProduct(r, tier, emit)
 	oddHlen(r, tier, emit)
 	raced(emit)
+	faulted(emit)
 	nRand, lenRand := 250, 30
 	if tier == "thorough" {
 		nRand, lenRand = 6000, 40
@@ -172,6 +174,43 @@ func raced(emit func([]string)) {
 	}
 }
 
+// faulted: the QoS / NAT install of a new session fails half-way (the QoS ingress map, the QoS egress map or
+// subscriber_nat has no free slot: handleRequest only logs the error and the session carries on), then the session is
+// ended by every path; closing observers show who gets the address next and what it finds
+func faulted(emit func([]string)) {
+	ends := [][]string{
+		{"rel m1"}, {"dec m1 a2"}, {"tick 301", "cleanup"}, {"tick 301", "req m1 a3 -", "cleanup"},
+		{"shutdown"}, {"tick 301", "gap rel m1"}, {"split rel m1 / dec m1 a2"}, {"split dec m1 a2 / rel m1"},
+		{"tick 100", "req m1 a2 c2", "rel m1"}, {"estgap m1 a2 - / rel m1", "rel m1"},
+	}
+	for _, rad := range []string{"radius", "noradius"} {
+		for _, f := range []string{"qi", "qe", "nat"} {
+			for _, pre := range [][]string{nil, {"disc m1 c1"}} {
+				for _, stays := range []bool{false, true} {
+					for _, e := range ends {
+						seq := []string{"new " + rad + " 300", "fault " + f + " on"}
+						seq = append(seq, pre...)
+						seq = append(seq, "req m1 a2 c1")
+						if !stays {
+							seq = append(seq, "fault "+f+" off")
+						}
+						seq = append(seq, e...)
+						seq = append(seq, "disc m2 -", "req m2 a2 -", "req m2 a3 -", "fault "+f+" off", "rel m2", "rel m1")
+						emit(seq)
+					}
+				}
+			}
+		}
+	}
+	// two and three faults at once, an install over an existing half-installed entry
+	for _, rad := range []string{"radius", "noradius"} {
+		emit([]string{"new " + rad + " 300", "fault qi on", "fault nat on", "req m1 a2 -", "fault qe on", "req m2 a3 c1",
+			"rel m1", "fault qi off", "req m3 a2 -", "tick 301", "cleanup", "fault nat off", "fault qe off", "req m1 a4 -", "shutdown"})
+		emit([]string{"new " + rad + " 300", "fault qi on", "req m1 a2 -", "tick 301", "cleanup", "req m2 a2 -", "fault qi off",
+			"req m2 a2 -", "dec m2 a2", "disc m3 -"})
+	}
+}
+
 var prefAddr = map[int]string{1: "a2", 2: "a3", 3: "a4", 4: "a5", 5: "a3", 6: "a4", 7: "a5"}
 
 func randTerm(r *rand.Rand, macs []int, allowCleanup bool) string {
@@ -226,7 +265,10 @@ func randomOp(r *rand.Rand, macs []int) string {
 		}
 		return "split " + first + " / " + second
 	case x < 99:
-		return "shutdown"
+		if r.Intn(3) == 0 {
+			return "shutdown"
+		}
+		return fmt.Sprintf("fault %s %s", hx.Pick(r, []string{"qi", "qi", "qe", "nat"}), hx.Pick(r, []string{"on", "on", "off"}))
 	default:
 		a := prefAddr[k]
 		return fmt.Sprintf("estgap m%d %s %s / %s", k, a, cid, randTerm(r, macs, true))
@@ -254,6 +296,7 @@ func exhaustive(r *rand.Rand, tier string, emit func([]string)) {
 		"req m2 a2 -", "req m2 a3 c1", "rel m2", "dec m2 a3",
 		"tick 301", "cleanup", "gap rel m1", "gap dec m1 a2", "split rel m1 / dec m1 a2", "split dec m1 a2 / cleanup",
 		"split rel m2 / rel m1", "estgap m1 a2 c1 / rel m1", "estgap m1 a2 - / dec m1 a2",
+		"fault qi on",
 	}
 	keep := 60
 	var rec func(prefix []string, depth int)
